@@ -348,10 +348,10 @@ calcvla(struct func *f, struct type *t)
 		return;
 	assert(t->kind == TYPEARRAY);
 	if (!t->u.array.size) {
-		assert(t->base->size || t->base->kind == TYPEARRAY);
+		assert(t->base->size || t->base->kind == TYPEARRAY || !(t->base->prop & PROPVM));
 		assert(t->u.array.length);
 		length = convert(f, &typeulong, t->u.array.length->type, funcexpr(f, t->u.array.length));
-		basesize = t->base->size ? mkintconst(t->base->size) : t->base->u.array.size;
+		basesize = t->base->size || !(t->base->prop & PROPVM) ? mkintconst(t->base->size) : t->base->u.array.size;
 		t->u.array.size = funcinst(f, IMUL, 'l', length, basesize);
 	}
 }
@@ -367,7 +367,8 @@ funcalloc(struct func *f, struct decl *d)
 	assert(!d->type->incomplete);
 	calcvla(f, d->type);
 	end = f->end;
-	if (d->type->size) {
+	if (d->type->size || !(d->type->prop & PROPVM)) {
+		/* constant size, possibly zero (GNU zero-length array) */
 		f->end = f->start;
 		v = mkintconst(d->type->size);
 	} else {
